@@ -201,6 +201,7 @@ func runC12(r *Run, p *Prog) {
 			r.Unresolved("X2", "Error.DispatchError")
 			return
 		}
+		de = p.Inlined(de, nil) // a decode helper shared by the arms is part of each arm
 		for _, d := range decl {
 			E, fld := d[1], d[2]
 			wire := fmt.Sprintf("const:%q", bname+"."+E)
@@ -416,37 +417,66 @@ func stdErrorHelperOK(p *Prog, T *Terms, cg *CallGraph, wfn map[*ssa.Function]bo
 	if h == nil {
 		return false, "helper Reply" + E + " not found"
 	}
+	replyT := p.NamedType(pkgVarlink, "serviceReply")
+	if replyT == nil {
+		return false, "type serviceReply not found"
+	}
+	// the helper in its inlined view, down to (not including) the function that takes the finished *serviceReply: it
+	// must hand over a reply literal {Error: <wire name>, Parameters: &E{<member>: <its argument>}} - whether it builds
+	// the literal itself or through the generic error-reply function makes no difference
+	takesReply := func(callee *ssa.Function) bool {
+		for _, prm := range callee.Params {
+			if pt, ok := prm.Type().(*types.Pointer); ok && types.Identical(pt.Elem(), replyT) {
+				return true
+			}
+		}
+		return fnPkgPath(callee) != pkgVarlink
+	}
+	v := p.Inlined(h, takesReply)
 	okH := false
-	detail := "helper does not send " + wire + " with a *" + E + " holding its argument"
-	for _, cs := range callsIn(h, false) {
-		t := staticTarget(cs.Common)
-		if t == nil || !p.InRepo(t) {
-			continue
-		}
-		reaches := false
-		for g := range cg.Reach([]*ssa.Function{t}, false) {
-			if wfn[g] {
-				reaches = true
+	detail := "helper does not send a reply literal {Error: " + wire + ", Parameters: &" + E + "{its argument}}"
+	n := 0
+	for _, b := range v.Blocks {
+		for _, in := range b.Instrs {
+			al, ok := in.(*ssa.Alloc)
+			if !ok {
+				continue
 			}
-		}
-		if !reaches {
-			continue
-		}
-		hasName, hasParam := false, false
-		for _, a := range cs.Common.Args {
-			if T.T(a) == wire {
-				hasName = true
+			if pt, ok := al.Type().(*types.Pointer); !ok || !types.Identical(pt.Elem(), replyT) {
+				continue
 			}
-			if al := unwrapAlloc(a); al != nil && isNamed(al.Type(), pkgVarlink, E) && st != nil {
-				vals := fieldStores(al)[st.Field(0).Name()]
-				if len(vals) == 1 && strip(T.T(vals[0])) == "param:"+h.Params[len(h.Params)-1].Name() {
-					hasParam = true
+			n++
+			fs := fieldStores(al)
+			hasName := len(fs["Error"]) == 1 && T.T(fs["Error"][0]) == wire
+			hasParam := false
+			if len(fs["Parameters"]) == 1 {
+				if pa := unwrapAlloc(fs["Parameters"][0]); pa != nil && isNamed(pa.Type(), pkgVarlink, E) && st != nil {
+					vals := fieldStores(pa)[st.Field(0).Name()]
+					if len(vals) == 1 && strip(T.T(vals[0])) == "param:"+v.Params[len(v.Params)-1].Name() {
+						hasParam = true
+					}
 				}
 			}
+			noCont := len(fs["Continues"]) == 0
+			// the literal is what reaches a writing function
+			sent := false
+			for _, ref := range *al.Referrers() {
+				if ci, ok := ref.(ssa.CallInstruction); ok {
+					if t := staticTarget(ci.Common()); t != nil {
+						for g := range cg.Reach([]*ssa.Function{t}, false) {
+							if wfn[g] {
+								sent = true
+							}
+						}
+					}
+				}
+			}
+			okH = hasName && hasParam && noCont && sent
+			detail = fmt.Sprintf("name constant passed=%v, *%s with the argument passed=%v, continues left unset=%v, literal handed to the write path=%v", hasName, E, hasParam, noCont, sent)
 		}
-		okFlow := replyErrorFlow(T, t, wfn)
-		okH = hasName && hasParam && okFlow
-		detail = fmt.Sprintf("name constant passed=%v, *%s with the argument passed=%v, callee stores name/parameters into the reply unchanged=%v", hasName, E, hasParam, okFlow)
+	}
+	if n != 1 {
+		return false, fmt.Sprintf("%d reply literals on the paths of Reply%s, exactly one expected", n, E)
 	}
 	return okH, detail
 }
